@@ -199,6 +199,32 @@ func genC20(c *Cfg, emit func([]string)) {
 		}
 		emit(h)
 	}
+	// ids at the edges of the code space: Latin-1, the last BMP code points, the first and the last
+	// supplementary-plane characters (U+10FFFF is Go's utf8.MaxRune), emoji; key order is code-point order
+	edge := []string{"\u00ff1", "\u0800a", "\ufffd", "\uffffy", "\U00010000x", "\U0001F6001", "\U0010fffe", "\U0010ffffz", "\U0010ffff", "~", "\u007f", "z\U0010ffff"}
+	nEdge := 30
+	if c.Thorough() {
+		nEdge = 300
+	}
+	for i := 0; i < nEdge; i++ {
+		h := []string{"reset"}
+		var ids []string
+		for j := 0; j < 2+c.Rng.Intn(6); j++ {
+			id := edge[c.Rng.Intn(len(edge))]
+			if c.Rng.Intn(4) == 0 {
+				id = fmt.Sprintf("%c%d", 'a'+rune(c.Rng.Intn(3)), c.Rng.Intn(5))
+			}
+			ids = append(ids, id)
+			h = append(h, "mk "+id)
+		}
+		h = append(h, "walk 1", "walk 2", "walk 3", "walk 100")
+		for _, id := range ids {
+			if c.Rng.Intn(3) == 0 {
+				h = append(h, "get "+id, "list 2 "+fromPrefix+id)
+			}
+		}
+		emit(h)
+	}
 	// ids that a path-cleaning key constructor would rewrite (".", "..", inner "..", trailing or
 	// doubled slashes): each must still be listed under the key prefix+id
 	dirty := []string{".", "a/../b", "x/", "a//b", "../to/x", "./a", "a/.", "..", "a/./b"}
@@ -225,6 +251,6 @@ func genC20(c *Cfg, emit func([]string)) {
 		}
 		emit(h)
 	}
-	c.Rule = fmt.Sprintf("%d random histories: 0..%d origin records created through channelTransferByCustomer (ids from a 180-value pool, duplicates), committed/cancelled/deleted at random through the real robot functions, next to unrelated keys sorting just before/after the prefix; then full walks following bookmarks for page sizes 1..n+1 and single pages with existing, foreign and invalid bookmarks and sizes {1,2,3,0,-1,100}; non-trivial = some listing returned >= 2 records; distinct = sha256 of op+output; plus a class of histories whose ids contain '.', '..' or extra slashes", nHist, maxRec)
+	c.Rule = fmt.Sprintf("%d random histories: 0..%d origin records created through channelTransferByCustomer (ids from a 180-value pool, duplicates), committed/cancelled/deleted at random through the real robot functions, next to unrelated keys sorting just before/after the prefix; then full walks following bookmarks for page sizes 1..n+1 and single pages with existing, foreign and invalid bookmarks and sizes {1,2,3,0,-1,100}; non-trivial = some listing returned >= 2 records; distinct = sha256 of op+output; plus a class of histories whose ids contain '.', '..' or extra slashes, and a class whose ids start with characters at the edges of the code space (U+FFFF, U+10000, U+10FFFE, U+10FFFF, emoji)", nHist, maxRec)
 	c.Extra = map[string]any{"histories": nHist, "max_records": maxRec}
 }
